@@ -194,6 +194,9 @@ def parse_rvalue(s):
             return ("len", parse_place(inner))
         if name == "CopyForDeref":
             return ("use", ("copy", parse_place(inner)))
+        if name[0].isupper() and name not in BINOPS and name not in UNOPS and name not in ("Len", "Cast", "ShallowInitBox", "Repeat"):
+            # tuple-struct constructor without generic arguments: `Time(move _13)`
+            return ("variant", name, "new", [parse_operand(p) for p in split_top(inner)])
     if s.startswith("&mut "):
         return ("ref", parse_place(s[5:]), True)
     if s.startswith("&raw "):
